@@ -9,6 +9,46 @@
  * only if the loader accepts them. */
 #include "../io/sess.h"
 #include "scenarios.h"
+#define FSE_STATIC_LINKING_ONLY
+#include "fse.h"
+#include "huf.h"
+
+/* hand-built structured dictionary: entropy tables drawn by the simulator, not trained.  Huffman table from random counts
+ * over a random subset of symbols; offset-code table holding exactly the codes the loader demands (every offset up to
+ * content + 128 KiB) plus an optional few above; match-length / literal-length tables over random subsets; random table
+ * logs; random (legal) repeat offsets.  Serialised with the library's own table writers so that they are well formed. */
+static size_t fse_table(uint8_t* op, size_t cap, Rng* r, unsigned maxsym, unsigned must_upto, unsigned maxlog, int all) {
+    unsigned count[64]; short norm[64]; unsigned k, present = 0, top = 0; size_t total = 0, tl, w; unsigned tableLog;
+    for (k = 0; k <= maxsym; k++) { int const in = all || k <= must_upto || rng_coin(r, 1, 3); count[k] = in ? 1 + (unsigned)rng_below(r, rng_coin(r, 1, 4) ? 2000 : 30) : 0; if (count[k]) { present++; top = k; total += count[k]; } }
+    if (present < 2) { count[0] = 5; count[1] = 3; total = 0; present = 0; top = 0; for (k = 0; k <= maxsym; k++) if (count[k]) { present++; top = k; total += count[k]; } }
+    tableLog = 5 + (unsigned)rng_below(r, maxlog - 4); while ((1u << tableLog) < present + 1 && tableLog < maxlog) tableLog++;
+    tl = FSE_normalizeCount(norm, tableLog, count, total, top, (unsigned)rng_below(r, 2));
+    if (FSE_isError(tl)) return 0;
+    w = FSE_writeNCount(op, cap, norm, top, (unsigned)tl);
+    return FSE_isError(w) ? 0 : w;
+}
+static size_t build_synth_dict(uint8_t* dst, size_t cap, Rng* r, const uint8_t* content, size_t clen, unsigned id) {
+    uint8_t* op = dst; size_t w; unsigned k;
+    if (cap < clen + 1200) return 0;
+    op[0] = 0x37; op[1] = 0xA4; op[2] = 0x30; op[3] = 0xEC; op[4] = (uint8_t)id; op[5] = (uint8_t)(id >> 8); op[6] = (uint8_t)(id >> 16); op[7] = (uint8_t)(id >> 24); op += 8;
+    {   unsigned count[256]; HUF_CREATE_STATIC_CTABLE(ct, 255); static unsigned wk[HUF_CTABLE_WORKSPACE_SIZE_U32]; unsigned maxs = 0, present = 0; size_t bits;
+        int const full = rng_coin(r, 1, 3);
+        for (k = 0; k < 256; k++) { count[k] = (full || rng_coin(r, 1, 2)) ? 1 + (unsigned)rng_below(r, rng_coin(r, 1, 5) ? 5000 : 40) : 0; if (count[k]) { maxs = k; present++; } }
+        if (present < 2) { count[0] = 3; count[1] = 2; maxs = maxs > 1 ? maxs : 1; }
+        bits = HUF_buildCTable_wksp(ct, count, maxs, 8 + (unsigned)rng_below(r, 4), wk, sizeof wk);
+        if (HUF_isError(bits)) return 0;
+        w = HUF_writeCTable_wksp(op, 300, ct, maxs, (unsigned)bits, wk, sizeof wk);
+        if (HUF_isError(w)) return 0;
+        op += w; }
+    {   size_t const maxoff = clen + (128u << 10); unsigned need = 0; while (((size_t)2 << need) <= maxoff + 3) need++;   /* highest offset code the loader wants representable */
+        if (need > 30) need = 30;
+        w = fse_table(op, 200, r, rng_coin(r, 1, 2) ? need : need + (unsigned)rng_below(r, 31 - need), need, 8, 0); if (!w) return 0; op += w; }
+    w = fse_table(op, 200, r, 52, 0, 9, rng_coin(r, 1, 2)); if (!w) return 0; op += w;
+    w = fse_table(op, 200, r, 35, 0, 9, rng_coin(r, 1, 2)); if (!w) return 0; op += w;
+    for (k = 0; k < 3; k++) { uint32_t rep = clen ? 1 + (uint32_t)rng_below(r, rng_coin(r, 1, 2) ? (clen < 16 ? clen : 16) : clen) : 1; op[0] = (uint8_t)rep; op[1] = (uint8_t)(rep >> 8); op[2] = (uint8_t)(rep >> 16); op[3] = (uint8_t)(rep >> 24); op += 4; }
+    memcpy(op, content, clen); op += clen;
+    return (size_t)(op - dst);
+}
 
 typedef struct { const uint8_t* in; size_t n; const ZSTD_CDict* cd; const ZSTD_DDict* dd; int level; int ok; size_t csize; } Shared;
 
@@ -25,6 +65,9 @@ static void gen(Plan* p, Rng* r, int tier, long idx) {
     plan_set(p, "store_fault", (idx % 3) == 2 ? (int64_t)(1 + rng_below(r, 4)) : 0);   /* 1 other ID, 2 same ID other content, 3 truncated, 4 bit flip */
     plan_set(p, "share", (idx % 5) == 4);
     plan_set(p, "reuse", (int64_t)rng_below(r, 3));
+    plan_set(p, "synth_dict", (idx % 4) == 1);          /* hand-built entropy tables instead of trained ones */
+    plan_set(p, "in_shape", (idx % 8) == 1 || (idx % 8) == 6);   /* 1: uncompressible 128 KiB blocks first, then a block of far references (dictionary start, first block) */
+    plan_set(p, "shape_seed", (int64_t)(rng_u64(r) >> 2));
     sim_sched_plan_defaults(p, r, 0);
 }
 
@@ -56,12 +99,38 @@ static void exec(const Plan* p) {
         if (tc && td) { free(s.dict); s.dict = m; sim_probe("c08.mutated_header_accepted"); } else { free(m); sim_probe("c08.mutated_header_rejected_by_loader"); }
         ZSTD_freeCDict(tc); ZSTD_freeDDict(td);
     }
+    if (plan_get(p, "synth_dict", 0) && s.dict_size >= 8) {
+        Rng rs; size_t clen = s.dict_size > 600 ? s.dict_size / 2 : s.dict_size / 2 + 1, n; uint8_t* m = (uint8_t*)malloc(s.dict_size + 2000); unsigned id = (unsigned)plan_get(p, "dict_id", 0); ZSTD_CDict* tc; ZSTD_DDict* td;
+        rng_seed(&rs, (uint64_t)plan_get(p, "shape_seed", 1), "synthdict"); if (!id) id = 32768 + (unsigned)rng_below(&rs, 1u << 30);
+        n = build_synth_dict(m, s.dict_size + 2000, &rs, s.dict + (s.dict_size - clen), clen, id);
+        tc = n ? ZSTD_createCDict(m, n, 3) : NULL; td = n ? ZSTD_createDDict(m, n) : NULL;
+        if (tc && td && ZSTD_getDictID_fromDict(m, n) == id) { free(s.dict); s.dict = m; s.dict_size = n; sim_probe("c08.synth_dict_accepted"); } else { free(m); sim_probe(n ? "c08.synth_dict_rejected_by_loader" : "c08.synth_dict_not_built"); }
+        ZSTD_freeCDict(tc); ZSTD_freeDDict(td);
+    }
+    if (plan_get(p, "in_shape", 0) == 1) {
+        Rng rs; size_t const nb = 1 + (size_t)(plan_get(p, "shape_seed", 0) & 1), blk = (size_t)128 << 10; size_t tail, total, o; uint8_t* in2; int rle;
+        rng_seed(&rs, (uint64_t)plan_get(p, "shape_seed", 1), "farshape"); tail = 6000 + (size_t)rng_below(&rs, 90000); total = nb * blk + tail; in2 = (uint8_t*)malloc(total);
+        rle = rng_coin(&rs, 1, 4);
+        gen_input(&rs, GEN_RANDOM, in2, nb * blk); if (rle && nb == 2) memset(in2 + blk, in2[blk], blk);   /* first block noise (raw), second sometimes one repeated byte (RLE) */
+        for (o = nb * blk; o < total; ) {
+            size_t len = 8 + (size_t)rng_below(&rs, rng_coin(&rs, 1, 2) ? 120 : 4000), from; const uint8_t* srcp; size_t srcn; unsigned const pick = (unsigned)rng_below(&rs, 8);
+            if (pick < 3 && s.dict_size > 64) { srcp = s.dict + s.dict_size / 2; srcn = s.dict_size - s.dict_size / 2; }         /* dictionary content: the farthest history there is */
+            else if (pick < 5) { srcp = in2; srcn = blk; }                                                               /* first block */
+            else if (pick < 7 && s.in_size > 16) { srcp = s.in; srcn = s.in_size; }
+            else { srcp = NULL; srcn = 0; }
+            if (len > total - o) len = total - o;
+            if (srcp && srcn > 8) { if (len > srcn) len = srcn; from = (size_t)rng_below(&rs, srcn - len + 1); memcpy(in2 + o, srcp + from, len); }
+            else { len = len > 60 ? 60 : len; gen_input(&rs, GEN_RANDOM, in2 + o, len); }
+            o += len;
+        }
+        free(s.in); s.in = in2; s.in_size = total; sim_probe("c08.far_reference_input");
+    }
     raw_prefix = (cmode == 5);
     did_dict = raw_prefix ? 0 : ZSTD_getDictID_fromDict(s.dict, s.dict_size);
     cap = ZSTD_compressBound(s.in_size) + 64; dst = (uint8_t*)malloc(cap);
     c = ZSTD_createCCtx_advanced(sess_cmem());
     /* optional history on the same context: another dictionary mode first */
-    if (plan_get(p, "reuse", 0) && s.dict_size >= 8) { ZSTD_CCtx_reset(c, ZSTD_reset_session_and_parameters); ZSTD_CCtx_setParameter(c, ZSTD_c_forceAttachDict, (int)plan_get(p, "reuse", 0)); ZSTD_CCtx_loadDictionary(c, s.dict, s.dict_size / 2 + 4); r = ZSTD_compress2(c, dst, cap, s.in, s.in_size / 2); if (ZSTD_isError(r)) sim_violation("compress_error", "history frame: %s", ZSTD_getErrorName(r)); ZSTD_CCtx_reset(c, ZSTD_reset_session_and_parameters); }
+    if (plan_get(p, "reuse", 0) && s.dict_size >= 8) { ZSTD_CCtx_reset(c, ZSTD_reset_session_and_parameters); ZSTD_CCtx_setParameter(c, ZSTD_c_forceAttachDict, (int)plan_get(p, "reuse", 0)); ZSTD_CCtx_loadDictionary(c, s.dict, s.dict_size / 2 + 4); r = ZSTD_compress2(c, dst, cap, s.in, s.in_size / 2); if (ZSTD_isError(r)) { /* the history frame uses a TRUNCATED copy of the dictionary: a structured one cut inside its tables is legitimately refused (reported as dictionary_corrupted or, through the local-dictionary path, memory_allocation) */ if (s.dict[0] == 0x37 && s.dict[1] == 0xA4 && s.dict[2] == 0x30 && s.dict[3] == 0xEC && ZSTD_createCDict(s.dict, s.dict_size / 2 + 4, 3) == NULL) sim_probe("c08.history_truncated_dict_refused"); else sim_violation("compress_error", "history frame: %s", ZSTD_getErrorName(r)); } ZSTD_CCtx_reset(c, ZSTD_reset_session_and_parameters); }
     /* ---- compress ---- */
     if (cmode == 0) r = ZSTD_compress_usingDict(c, dst, cap, s.in, s.in_size, s.dict, s.dict_size, level);
     else if (cmode == 1 || cmode == 2) { cd = ZSTD_createCDict_advanced(s.dict, s.dict_size, cmode == 1 ? ZSTD_dlm_byCopy : ZSTD_dlm_byRef, ZSTD_dct_auto, ZSTD_getCParams(level, s.in_size, s.dict_size), sess_cmem());
